@@ -1,1 +1,199 @@
-//! c10 harnesses
+//! C10 — port registry (mpmc::Container): entries are exactly what was added, removed entries
+//! disappear, the (capacity+1)-th add is refused, recovery removes exactly a dead owner's entries.
+//!
+//! The snapshot path (`get_state` / `update_state`) is exercised by `c10_state_refresh*`; whether
+//! it fits the solver is decided per run (the driver reports out-of-memory as inconclusive and
+//! the manifest only claims what completes, see DESIGN.md).
+
+use crate::common::*;
+use iceoryx2_bb_lock_free::mpmc::container::*;
+use iceoryx2_bb_lock_free::mpmc::robust_unique_index_set::OwnerId;
+use iceoryx2_bb_lock_free::mpmc::unique_index_set_enums::{ReleaseMode, ReleaseState};
+
+type Pair = (u16, u16);
+fn pair(v: u16) -> Pair {
+    (v, !v)
+}
+
+/// add / remove / recover history without snapshots: slots, handles, limits
+proof!(8, fn c10_add_remove_history() {
+    const CAP: usize = 2;
+    let c = FixedSizeContainer::<Pair, CAP>::new();
+    assert!(c.capacity() == CAP);
+    let mut h: [Option<ContainerHandle>; CAP] = [None; CAP];
+    let mut val = [0u16; CAP];
+    let mut own = [0u64; CAP];
+    let mut refused = false;
+    let mut reused = false;
+    let mut freed_once = [false; CAP];
+    let mut step = 0;
+    while step < 3 {
+        let op: u8 = kani::any();
+        kani::assume(op < 2);
+        let who: u64 = kani::any();
+        kani::assume(who == 1 || who == 2);
+        let mut live = 0;
+        let mut i = 0;
+        while i < CAP {
+            if h[i].is_some() {
+                live += 1;
+            }
+            i += 1;
+        }
+        match op {
+            0 => {
+                let v: u16 = kani::any();
+                match c.add(pair(v), OwnerId::new(who).unwrap()) {
+                    Ok((p, handle)) => {
+                        let i = handle.index();
+                        assert!(i < CAP && h[i].is_none(), "c10: a live registry slot was handed out again");
+                        assert!(unsafe { *p } == pair(v), "c10: slot does not hold the added data");
+                        if freed_once[i] {
+                            reused = true;
+                        }
+                        h[i] = Some(handle);
+                        val[i] = v;
+                        own[i] = who;
+                    }
+                    Err(e) => {
+                        assert!(e == ContainerAddFailure::OutOfSpace);
+                        assert!(live == CAP, "c10: add refused although a slot is free");
+                        refused = true;
+                    }
+                }
+            }
+            1 => {
+                let i: usize = kani::any();
+                kani::assume(i < CAP && h[i].is_some());
+                let r = unsafe { c.remove(h[i].unwrap(), ReleaseMode::Default) };
+                assert!(r == Ok(ReleaseState::Unlocked), "c10: removing a live entry failed");
+                // a second remove with the same handle is refused
+                assert!(unsafe { c.remove(h[i].unwrap(), ReleaseMode::Default) }.is_err(), "c10: double remove accepted");
+                h[i] = None;
+                freed_once[i] = true;
+            }
+            _ => {
+                // recover everything owned by `who`
+                let mut seen = [false; CAP];
+                unsafe {
+                    c.recover(OwnerId::new(who).unwrap(), |v: Pair| {
+                        assert!(v.1 == !v.0, "c10: recovery saw torn data");
+                        true
+                    }, ReleaseMode::Default)
+                };
+                let mut i = 0;
+                while i < CAP {
+                    if h[i].is_some() && own[i] == who {
+                        seen[i] = true;
+                        h[i] = None;
+                        freed_once[i] = true;
+                    }
+                    i += 1;
+                }
+                let _ = seen;
+            }
+        }
+        let mut live = 0;
+        let mut i = 0;
+        while i < CAP {
+            if h[i].is_some() {
+                live += 1;
+            }
+            i += 1;
+        }
+        assert!(c.is_empty() == (live == 0), "c10: is_empty differs from the model");
+        step += 1;
+    }
+    // everything that is free is addable again
+    let mut i = 0;
+    let mut free = 0;
+    while i < CAP {
+        if h[i].is_none() {
+            free += 1;
+        }
+        i += 1;
+    }
+    let mut k = 0;
+    while k < CAP {
+        if k < free {
+            assert!(c.add(pair(7), OwnerId::new(3).unwrap()).is_ok(), "c10: a free slot is not addable (leak)");
+        }
+        k += 1;
+    }
+    assert!(c.add(pair(7), OwnerId::new(3).unwrap()).is_err());
+    kani::cover!(refused, "add beyond the capacity refused");
+    kani::cover!(reused, "a freed slot was reused");
+    canaries();
+});
+
+pub unsafe fn byte_copy<T>(src: *const T, dst: *mut T, count: usize) {
+    unsafe {
+        let n = count * core::mem::size_of::<T>();
+        let s = src as *const u8;
+        let d = dst as *mut u8;
+        let mut i = 0;
+        while i < n {
+            *d.add(i) = *s.add(i);
+            i += 1;
+        }
+    }
+}
+
+/// snapshot refresh after a short concrete-shape history (capacity 1): the snapshot contains
+/// exactly the live entry with exactly its data; "nothing changed" afterwards
+proof_copy!(6, crate::c10::byte_copy, fn c10_state_refresh_cap1() {
+    let c = FixedSizeContainer::<Pair, 1>::new();
+    let v: u16 = kani::any();
+    let o = OwnerId::new(1).unwrap();
+    let mut st = c.get_state();
+    assert!(st.get(0).is_none(), "c10: ghost entry in an empty registry");
+    assert!(!unsafe { c.update_state(&mut st) }, "c10: refresh reports a change although nothing changed");
+    let (_, h) = c.add(pair(v), o).unwrap();
+    assert!(unsafe { c.update_state(&mut st) }, "c10: completed add not noticed by the next refresh");
+    assert!(st.get(0) == Some(&pair(v)), "c10: snapshot data differs from what was added");
+    assert!(!unsafe { c.update_state(&mut st) });
+    unsafe { c.remove(h, ReleaseMode::Default).unwrap() };
+    assert!(unsafe { c.update_state(&mut st) }, "c10: completed remove not noticed by the next refresh");
+    assert!(st.get(0).is_none(), "c10: removed entry still reported (ghost)");
+    let w: u16 = kani::any();
+    let _ = c.add(pair(w), o).unwrap();
+    assert!(unsafe { c.update_state(&mut st) });
+    assert!(st.get(0) == Some(&pair(w)), "c10: reused slot reports stale data");
+    core::mem::forget(st);
+    canaries();
+});
+
+/// recovery of a dead owner removes exactly its entries and frees their slots
+proof!(8, fn c10_recover_dead_owner() {
+    let c = FixedSizeContainer::<Pair, 2>::new();
+    let a: u16 = kani::any();
+    let b: u16 = kani::any();
+    let dead = OwnerId::new(1).unwrap();
+    let live = OwnerId::new(2).unwrap();
+    let dead_first: bool = kani::any();
+    let (hd, hl) = if dead_first {
+        let (_, hd) = c.add(pair(a), dead).unwrap();
+        let (_, hl) = c.add(pair(b), live).unwrap();
+        (hd, hl)
+    } else {
+        let (_, hl) = c.add(pair(b), live).unwrap();
+        let (_, hd) = c.add(pair(a), dead).unwrap();
+        (hd, hl)
+    };
+    let mut seen = 0;
+    unsafe {
+        c.recover(dead, |v: Pair| {
+            assert!(v == pair(a), "c10: recovery saw data that the dead owner did not add");
+            seen += 1;
+            true
+        }, ReleaseMode::Default)
+    };
+    assert!(seen == 1, "c10: recovery did not visit exactly the dead owner's entry");
+    assert!(unsafe { c.remove(hd, ReleaseMode::Default) }.is_err(), "c10: recovered entry can still be removed");
+    // the freed slot is addable, the live owner's entry is untouched
+    let (p, h3) = c.add(pair(9), live).unwrap();
+    assert!(h3.index() == hd.index() && unsafe { *p } == pair(9));
+    assert!(c.add(pair(9), live).is_err());
+    assert!(unsafe { c.remove(hl, ReleaseMode::Default) }.is_ok(), "c10: recovery disturbed a live owner's entry");
+    canaries();
+});
